@@ -15,6 +15,7 @@ import Driver.CmdOpt
 import Driver.CmdDef
 import Driver.CmdDet
 import Driver.CmdFull
+import Driver.CmdWhole
 open Lean Driver
 
 def dispatch (cmd : String) (j : Json) : R Json :=
@@ -27,6 +28,7 @@ def dispatch (cmd : String) (j : Json) : R Json :=
   | "pipe.run" => cmdPipeRun j
   | "det.replay" => cmdDetReplay j
   | "full.replay" => cmdFullReplay j
+  | "whole.replay" => cmdWholeReplay j
   | "mesh.bounds" => cmdMeshBounds j
   | "poll.dirs" => cmdPollDirs j
   | "prop.dirs" => cmdPropDirs j
